@@ -64,7 +64,9 @@ def dest_text(link, written, slugs):
     if sp not in ("noext", "file", "path"):
         path += ".md"
     if link["anchor"] == 99:
-        path += "#nosuchslug"
+        # a fragment that is no heading slug of the target: an unknown word, or the project-wide label (a label is not a
+        # heading anchor of some other file, and file links take heading anchors only)
+        path += "#lab" if (len(written) + len(sp)) % 2 else "#nosuchslug"
     elif link["anchor"]:
         path += "#" + slugs[pkey(link["to"])][link["anchor"] - 1]
     return path
@@ -203,7 +205,7 @@ def judge_link(ctx, leg, proj, src, link, res, o, secids, titles, headings, case
             if frag not in want:
                 ctx.violation(f"{what}: fragment {frag!r} is not an id of heading {f[2]} of {pkey(f[1])} (ids {want})", case)
                 return
-        if f[0] == "literal" and frag != f[1]:
+        if f[0] == "literal" and frag not in (f[1], "lab"):
             ctx.violation(f"{what}: expected fragment {f[1]!r}, observed {frag!r}", case)
             return
     t = res["text"]
